@@ -1632,6 +1632,14 @@ namespace bloch::runtime {
         }
     }
 
+    // Qubit and @tracked fields are inherited: a class owns them if it or any base declares one.
+    static bool ownsQubitsOrTracked(const RuntimeClass* cls) {
+        for (; cls; cls = cls->base)
+            if (cls->hasTrackedFields)
+                return true;
+        return false;
+    }
+
     void RuntimeEvaluator::runCycleCollector() {
         if (!m_gcRequested.load())
             return;
@@ -1689,7 +1697,7 @@ namespace bloch::runtime {
         {
             std::unordered_set<const Object*> pinned;
             for (auto& obj : objects)
-                if (!obj->marked && obj->cls && obj->cls->hasTrackedFields)
+                if (!obj->marked && ownsQubitsOrTracked(obj->cls))
                     pinned.insert(obj.get());
             auto refersToPinned = [&](const Value& v) {
                 if (v.type == Value::Type::Object && v.objectValue)
@@ -1722,7 +1730,7 @@ namespace bloch::runtime {
         // Sweep unmarked non-tracked objects
         std::vector<std::shared_ptr<Object>> unreachable;
         for (auto& obj : objects) {
-            if (!obj->marked && obj->cls && !obj->cls->hasTrackedFields) {
+            if (!obj->marked && obj->cls && !ownsQubitsOrTracked(obj->cls)) {
                 obj->skipDestructor = true;
                 unreachable.push_back(obj);
             }
